@@ -658,10 +658,12 @@ def factor_add_terms_ex(
 
     # If there are variables, we want to extract them, so
     # the smallest number to factor out. TODO: is this okay?
+    # (builtin min/max keep Python numbers; numpy scalars would leak into the tree and
+    # wrap silently at 64 bits in later arithmetic)
     if has_left or has_right:
-        best = np.min(common)
+        best = min(common)
     else:
-        best = np.max(common)
+        best = max(common)
     result = FactorResult()
     result.best = best
     result.left = l_factors[best]
